@@ -108,7 +108,7 @@ theorem extendedZF_eq {β : Type} (root : List β) (size : ℕ) :
         List.flatten_append, List.flatten_cons, List.flatten_nil, List.append_nil]
   · have h1' : ¬ ((size : ℤ) - (root.length : ℤ) > (root.length : ℤ)) := by omega
     rw [if_neg h1', if_neg h1]
-    simp only [sliceTo_sub, List.flatten_cons, List.flatten_nil, List.append_nil]
+    simp only [sliceTo_sub, List.flatten_append, List.flatten_cons, List.flatten_nil, List.append_nil]
     by_cases h2 : root.length ≤ size
     · rw [if_pos h2, if_pos h2]
     · rw [if_neg h2, if_neg h2]
